@@ -372,7 +372,7 @@ func verifC18Bucket(n int64) int {
 func TestVerifC18FeeFunction(t *testing.T) {
 	vc := verifStart(t, "C18", "feefunction")
 	defer vc.Finish()
-	total := vc.N(400000, 20000000)
+	total := vc.N(400000, 40000000)
 	for i := 0; i < total; i++ {
 		if !vc.Mine(i) {
 			continue
@@ -461,7 +461,10 @@ type verifC18Signer struct {
 func (s *verifC18Signer) ComputeInputScript(_ *wire.MsgTx, d *input.SignDescriptor) (*input.Script, error) {
 	switch {
 	case txscript.IsPayToTaproot(d.Output.PkScript):
-		return &input.Script{Witness: verifC18Witness(int(input.TaprootKeyPathWitnessSize))}, nil
+		// lnd estimates wallet taproot inputs (TaprootPubKeySpend) with
+		// an explicit sighash byte.
+		size, _, _ := input.TaprootPubKeySpend.SizeUpperBound()
+		return &input.Script{Witness: verifC18Witness(int(size))}, nil
 	default:
 		return &input.Script{Witness: wire.TxWitness{make([]byte, 73), make([]byte, 33)}}, nil
 	}
@@ -662,6 +665,11 @@ func verifC18GenPub(r *verifRng) verifC18PubCase {
 	}
 	c.Est.Relay = []int64{253, 253, 253, 1000, 300}[r.Intn(5)]
 	c.Est.Answer = verifC18Rate(r, []int64{c.Est.Relay, c.MaxRate, 2000})
+	if r.Chance(2, 3) {
+		// the usual situation: an estimate between the relay floor
+		// and a few thousand sat/kw.
+		c.Est.Answer = c.Est.Relay + int64(r.Intn(4000))
+	}
 	c.Est.Fail = r.Chance(1, 25)
 	if r.Chance(1, 4) {
 		c.HasStart = true
@@ -672,13 +680,23 @@ func verifC18GenPub(r *verifRng) verifC18PubCase {
 	if r.Chance(1, 8) {
 		c.Aux = 330 + int64(r.Intn(2000))
 	}
-	opts := []string{"ok", "ok", "ok", "ok", "insufficient", "minrelay", "mempoolmin", "mempoolfee", "unimplemented", "missing", "other"}
+	opts := []string{"insufficient", "insufficient", "insufficient", "minrelay", "mempoolmin", "mempoolfee",
+		"unimplemented", "missing", "other"}
+	hostile := r.Chance(1, 4)
 	for k := 0; k < 6+r.Intn(20); k++ {
-		c.Mempool = append(c.Mempool, opts[r.Intn(len(opts))])
+		if (hostile && r.Bool()) || (!hostile && r.Chance(4, 5)) {
+			c.Mempool = append(c.Mempool, "ok")
+		} else {
+			c.Mempool = append(c.Mempool, opts[r.Intn(len(opts))])
+		}
 	}
-	pops := []string{"ok", "ok", "ok", "ok", "ok", "insufficient", "mempoolfee", "other"}
+	pops := []string{"insufficient", "mempoolfee", "other"}
 	for k := 0; k < 4+r.Intn(10); k++ {
-		c.Publish = append(c.Publish, pops[r.Intn(len(pops))])
+		if r.Chance(9, 10) {
+			c.Publish = append(c.Publish, "ok")
+		} else {
+			c.Publish = append(c.Publish, pops[r.Intn(len(pops))])
+		}
 	}
 	h := c.Height
 	last := c.Deadline + 2
@@ -844,6 +862,14 @@ func (w *verifC18Wallet) judge(via string, tx *wire.MsgTx) {
 		// above MaxFeeRate.
 		case c.HasStart && c.Start > c.MaxRate && nominal > c.MaxRate:
 			key += "+explicit-start-above-max-fee-rate"
+
+		// class KF-C18-3: no explicit start; the fee function was
+		// created for a conf target >= 1008 with the relay fee above
+		// MaxFeeRate and offers the relay fee.
+		case !c.HasStart && nominal > c.MaxRate && c.Est.Relay > c.MaxRate &&
+			c.Deadline-w.handed[0].Height >= 1008:
+
+			key += "+relay-floor-above-ending-rate-conf>=1008"
 
 		// class KF-C18-2: the fee function's rate respects the
 		// maximum; the whole excess is sub-dust change that was
@@ -1168,7 +1194,7 @@ func verifC18Ceiling(vc *verifCtx, w *verifC18Wallet, rec *monitorRecord, h int3
 func TestVerifC18Publisher(t *testing.T) {
 	vc := verifStart(t, "C18", "publisher")
 	defer vc.Finish()
-	total := vc.N(6000, 300000)
+	total := vc.N(24000, 1000000)
 	for i := 0; i < total; i++ {
 		if !vc.Mine(i) {
 			continue
@@ -1177,7 +1203,7 @@ func TestVerifC18Publisher(t *testing.T) {
 		c := verifC18GenPub(r)
 		vc.Case(i, c)
 		verifC18RunPub(t, vc, r.Fork("run"), &c)
-		if i%1500 == 3 {
+		if i%6000 == 3 {
 			vc.Sample(c)
 		}
 		vc.CaseDone(i)
